@@ -9,8 +9,8 @@ from mingus.core import progressions
 
 ID = "C12"
 LEAN_MODULES = ["Mingus.Props.C12", "Mingus.Tie.C12"]
-RULE = ("every operation sequence of depth <=3 (quick) / <=4 (thorough) over a 16-op alphabet (octave 0 included) of add/remove forms (objects, bare "
-        "names, names with octave, lists, other containers, '+', remove by name / name+octave / note / list, '-'), seeded random "
+RULE = ("every operation sequence of depth <=3 (quick) / <=4 (thorough) over an 18-op alphabet (octave 0 included) of add/remove forms (objects, bare "
+        "names, names with octave, lists, other containers, '+', remove by name / name+octave / note / list, remove_notes and '-' given one note, one name or a list), seeded random "
         "sequences up to depth 40 over a larger pool incl. B#/Cb-type names; every chord shorthand x 21 roots, interval "
         "shorthands, numerals x keys through the shorthand constructors. Each step is judged against a set model started from "
         "the implementation's previous state")
@@ -59,6 +59,14 @@ def run(ops):
                 nc.remove_note(op[1], op[2])
             elif t == "remove_obj":
                 nc.remove_note(Note(op[1], op[2]))
+            elif t == "remove_notes_obj":             # remove_notes / '-' given ONE Note or ONE name, not a list
+                nc.remove_notes(Note(op[1], op[2]))
+            elif t == "minus_obj":
+                nc = nc - Note(op[1], op[2])
+            elif t == "remove_notes_str":
+                nc.remove_notes(op[1])
+            elif t == "minus_str":
+                nc = nc - op[1]
             elif t == "remove_names":
                 nc.remove_notes([x if isinstance(x, str) else Note(x[0], x[1]) for x in op[1]])
             elif t == "minus":
@@ -99,6 +107,7 @@ ALPHA = [
     ["add", ["named", "C", 5]], ["add_list", [["bare", "E"], ["named", "A", 3], ["obj", "Db", 4]]], ["plus", [["bare", "Bb"]]],
     ["add_nc", [["bare", "G"], ["bare", "C"]]], ["remove_name", "C"], ["remove_name_oct", "C", 4], ["remove_obj", "C", 4],
     ["remove_names", ["E", ["G", 4]]], ["minus", ["C"]], ["add", ["named", "C", 0]], ["remove_name_oct", "C", 0],
+    ["minus_obj", "Db", 4], ["remove_notes_obj", "B#", 3],
 ]
 
 def rand_item(rng):
@@ -122,7 +131,9 @@ def rand_op(rng):
     if k < 0.8:
         return ["remove_name_oct", nm, rng.choice([0, 0, 1, 2, 3, 4, 5, 6])]
     if k < 0.9:
-        return ["remove_obj", nm, rng.choice([0, 1, 2, 3, 4, 5, 6])]
+        return [rng.choice(["remove_obj", "remove_notes_obj", "minus_obj"]), nm, rng.choice([0, 1, 2, 3, 4, 5, 6])]
+    if k < 0.93:
+        return [rng.choice(["remove_notes_str", "minus_str"]), nm]
     return [rng.choice(["remove_names", "minus"]), [rng.choice([nm, [nm, rng.randint(3, 5)]]) for _ in range(rng.randint(1, 3))]]
 
 def cases(tier, rng):
@@ -137,7 +148,7 @@ def cases(tier, rng):
         for r in roots:
             yield Case("nc.from_chord", [r + k], "from_chord", kind=("chord", r, k))
     for nm in roots:
-        for sh in ["1", "2", "b3", "3", "4", "#4", "5", "b6", "6", "b7", "7"]:
+        for sh in ["1", "2", "b3", "3", "4", "#4", "5", "b6", "6", "b7", "7", "bb2", "#1", "b2", "bb3", "#5"]:
             for up in (True, False):
                 yield Case("nc.from_interval", [nm, 4, sh, up], "from_interval", kind=("interval",))
     for key in ["C", "F#", "Eb", "a", "c#"]:
@@ -185,8 +196,10 @@ def spec_step(prev, op):
         return [x for x in prev if x[0] != op[1]]
     if t == "remove_name_oct":
         return [x for x in prev if not (x[0] == op[1] and x[1] == op[2])]
-    if t == "remove_obj":
+    if t in ("remove_obj", "remove_notes_obj", "minus_obj"):
         return [x for x in prev if pitch(x[0], x[1]) != pitch(op[1], op[2])]
+    if t in ("remove_notes_str", "minus_str"):
+        return [x for x in prev if x[0] != op[1]]
     if t in ("remove_names", "minus"):
         cur = prev
         for x in op[1]:
@@ -284,6 +297,34 @@ def oracle(c, obs):
         for a, b in zip(ps, ps[1:]):
             if not (a <= b < a + 12):
                 return "chord notes are not voiced upward within an octave of the previous top note"
+        return None
+    if kind[0] == "interval":
+        nm, o, sh, up = c["args"]
+        if isinstance(obs, Err):
+            return "constructor raised"
+        deg = int(sh[-1])
+        semis = {1: 0, 2: 2, 3: 4, 4: 5, 5: 7, 6: 9, 7: 11}[deg] + sh.count("#") - sh.count("b")
+        root = pitch(nm, o)
+        tgt = root + semis if up else root - semis
+        letter = LETTERS[(LETTERS.index(nm[0]) + (deg - 1 if up else -(deg - 1))) % 7]
+        if [pitch(n, q) for n, q in obs] != sorted({root, tgt}):
+            return "container built from interval shorthand does not hold the start note and the note that interval away"
+        if [nm, o] not in obs:
+            return "container built from interval shorthand does not hold the start note itself"
+        if tgt != root and [n[0] for n, q in obs if [n, q] != [nm, o]] != [letter]:
+            return "container built from interval shorthand spells the other note on the wrong letter"
+        return None
+    if kind[0] == "prog":
+        if obs is False or isinstance(obs, Err) or not obs:
+            return None                                   # unknown numerals: the model comparison decides
+        if any(not 0 <= offset(n) <= 11 for n, q in obs):
+            return None                                   # B#/Cb-type names: the recorded voicing finding's domain
+        if obs[0][1] != 4:
+            return "container built from progression shorthand does not start in octave 4"
+        ps = [pitch(n, q) for n, q in obs]
+        for a, b in zip(ps, ps[1:]):
+            if not (a <= b < a + 12):
+                return "progression chord notes are not voiced upward within an octave of the previous top note"
         return None
     if kind[0] == "misc":
         items = c["args"][0]
